@@ -110,6 +110,8 @@ def gen_policy(rng, est_steps):
     pol = _gen_policy(rng, est_steps)
     # timed waits on a held lock: how often the simulator lets them expire (slow holder / clock jump)
     pol["tw"] = {"pct": rng.choice([0, 30, 70, 100]), "salt": rng.randrange(1 << 30)}
+    # caller threads that are not threading.Thread objects (started through _thread: not counted by active_count())
+    pol["raw"] = rng.random() < 0.3
     return pol
 
 
